@@ -135,6 +135,10 @@ inductive SlotConst (f : File) : Slot → ConstVal → Prop
   | const {c} : c ∈ f.constants → SlotConst f (.const c.name) c.value
   | field {s k fl d} : s ∈ f.structLikes → s.fields[k]? = some fl → fl.dflt = some d →
       SlotConst f (.field s.name k) d
+  | arg {s k fn a fl d} : s ∈ f.services → s.functions[k]? = some fn → fn.args[a]? = some fl →
+      fl.dflt = some d → SlotConst f (.arg s.name k a) d
+  | throw {s k fn a fl d} : s ∈ f.services → s.functions[k]? = some fn → fn.throws[a]? = some fl →
+      fl.dflt = some d → SlotConst f (.throw s.name k a) d
 
 /-- The resolved nodes stored at a slot of a resolved file. -/
 def RFile.nodesAt (rf : RFile) (s : Slot) : Option (List RNode) := lookupSlot s rf.types
@@ -145,11 +149,11 @@ def RFile.bindsAt (rf : RFile) (s : Slot) : Option (List (Option Extra)) := look
 /-- `Service.Reference` of service `s`. -/
 def RFile.svcRef (rf : RFile) (s : Bytes) : Option (Option Ref) := lookupB s rf.svcRefs
 
-/-- No global name is empty, contains a '.', is a base-type keyword or a container keyword.  (The
-IDL grammar excludes empty names and the keywords; it does allow dots in definition names, on which
-`getEnum` misbehaves.) -/
+/-- No global name is empty, a base-type keyword or a container keyword (dots are allowed).  The
+grammar excludes empty names; it does not stop a definition from being called `list` or `i32`, and
+`getEnum` follows a typedef of `list<…>` / `i32` to a definition of that name. -/
 def File.saneNames (f : File) : Bool :=
-  f.names.all fun n => !n.isEmpty && (splitLastDot n).isNone && (specBase n).isNone && !isContainerName n
+  f.names.all fun n => !n.isEmpty && (specBase n).isNone && !isContainerName n
 
 def Program.saneNames (p : Program) : Bool := p.all File.saneNames
 
